@@ -114,13 +114,13 @@ CLAIMS = {
  "C02": dict(
   category="proof",
   text="Narrow, partial. Proved: (1) Decl.deepCopy / CustomFuncDecl.deepCopy copy EVERY schema-visible scalar field (const, external, xpath, custom_parse, template, type, no_trim, keep_empty_or_null, custom_func name and ignore_error, presence of xpath_dynamic/custom_func, argument count) and write fresh objects only - template inlining and the declaration hash (the per-record result-cache key) are both computed from this copy; (2) every record is evaluated with an evaluation context created for that record (NewParseCtx is fresh with caching on; ingester.Read creates it per call and ParseNode requires a context whose cache is valid for the current heap); (3) after validation an array declaration's children are its element declarations in declaration order, which is the order parseArray emits them in (F2 fixed: the children were sorted by fqdn string).",
-  note="(3) is proved against an ASSUMED frame of the recursive validateDecl (trusted contract: validation writes only the subtree of the declaration it is given, the hash table and fresh template copies; the declaration tree is a tree). NOT decided by this check: the evaluation semantics itself (ParseNode and the per-kind parse functions, normalisation and type conversion in value.go, xpath selection), the cache key's blindness to anchoring (F1), custom-function arity/type panics (F12, F13). Those stay design-round findings and paper arguments.",
+  note="(3) is proved against an ASSUMED frame of the recursive validateDecl (trusted contract: validation writes only the subtree of the declaration it is given, the hash table and fresh template copies; the declaration tree is a tree). NOT decided by this check: the evaluation semantics itself (ParseNode and the per-kind parse functions, normalisation and type conversion in value.go, xpath selection), the cache key's blindness to anchoring (F1, a design-round finding that is not repaired).",
   technique="contract-based deductive verification: field-by-field postconditions with an explicit frame over recursive calls, ghost cache validity, loop invariant over the element/children slices, SMT",
   design_ref="§6 C02"),
  "C03": dict(
   category="proof",
-  text="Partial. (1) Panic-freedom: for 121 functions under contract (stream readers, flat-file, fixed-length, csv, EDI, node tree, navigator, date-time, javascript, transform.Read) every generated safety obligation is discharged for all inputs satisfying the function's precondition: no nil dereference, no index or slice bound violation, no failing type assertion, no reachable explicit panic, no division by zero. (2) Termination of loops: 21 loops carry a proved variant (obligations loopK.decreases: rune slicing, buffer compaction, the xpath backward scan incl. its nested quote loop, javascript argument loop, envelope row loops, the old csv reader's row-skipping loop under a delimiter the decoder accepts - which validateFileDecl is proved to establish, F4a fixed - and - under the stated assumption that every input is finite, ghost inputLeft - the token/line consuming loops of the JSON, XML, fixed-length and EDI readers); 9 range loops terminate by construction. (3) The error-class postconditions whose violation makes the documented read loop spin (a fatal condition reported as a continuable error). F3, F11 (panics escaping Read) and F4a (hang on a delimiter the csv decoder refuses) were found by these obligations and are fixed.",
-  note="NOT decided: termination of 7 loops listed in evidence (sibling-chain walks, the hierarchy readers' main loops), recursion (no recursion variants: seeded change C03_a2, unbounded template recursion, is missed), functions not under contract, notably the transform package's reflection calls (F12, F13). 16 contracted functions with still-undischarged safety obligations are excluded and named in DESIGN.md 0.2. Preconditions that come from schema validation are assumed. 'Finite input' is an assumption on the library readers (a successful read strictly decreases inputLeft >= 0).",
+  text="Partial. (1) Panic-freedom: for 121 functions under contract (stream readers, flat-file, fixed-length, csv, EDI, node tree, navigator, date-time, javascript, transform.Read) every generated safety obligation is discharged for all inputs satisfying the function's precondition: no nil dereference, no index or slice bound violation, no failing type assertion, no reachable explicit panic, no division by zero. (2) Termination of loops: 21 loops carry a proved variant (obligations loopK.decreases: rune slicing, buffer compaction, the xpath backward scan incl. its nested quote loop, javascript argument loop, envelope row loops, the old csv reader's row-skipping loop under a delimiter the decoder accepts - which validateFileDecl is proved to establish, F4a fixed - and - under the stated assumption that every input is finite, ghost inputLeft - the token/line consuming loops of the JSON, XML, fixed-length and EDI readers); 9 range loops terminate by construction. (3) The error-class postconditions whose violation makes the documented read loop spin (a fatal condition reported as a continuable error). F3, F11, F12, F13 (panics escaping Read) and F4a (hang on a delimiter the csv decoder refuses) were found by these obligations and are fixed; the reflection call of custom functions is covered by assumed contracts on reflect (argument count must fit; Elem only of the variadic tail).",
+  note="NOT decided: termination of 7 loops listed in evidence (sibling-chain walks, the hierarchy readers' main loops), recursion (no recursion variants: seeded change C03_a2, unbounded template recursion, is missed), functions not under contract (most of the transform package's evaluation code); assignability of custom-function argument types to parameter types (checked by the repaired code, not modelled in the reflect contracts). 16 contracted functions with still-undischarged safety obligations are excluded and named in DESIGN.md 0.2. Preconditions that come from schema validation are assumed. 'Finite input' is an assumption on the library readers (a successful read strictly decreases inputLeft >= 0).",
   technique="contract-based deductive verification: automatically generated safety obligations per SSA instruction, loop variants, SMT",
   design_ref="§6 C03"),
 }
